@@ -46,6 +46,10 @@ def py_bind(sig, call):
     kw = []
     if any(not isstr for isstr in call.get('kw_is_str') or []):
         return None              # keywords must be strings
+    if call.get('star') is not None and call.get('star_iterable') is False:
+        return None              # argument after * must be an iterable
+    if call.get('kw') is not None and call.get('kw_is_dict') is False:
+        return None              # argument after ** must be a mapping
     allnamed = list(call['named']) + list(call['kw'] or [])
     seen = set()
     for name, v in allnamed:
@@ -191,17 +195,27 @@ def contracts(shape):
         ex.write_ref(st2, r, Slice(z3.IntVal(len(v.elems) + 1), list(v.elems) + [Struct([name_of(ex, args[1]), args[2]])], 'map'))
         return [('ret', Struct([]), path, st2['mem'])]
 
+    def flagged(ex, path, flag, yes, no):
+        out = []
+        for c, v in ((flag, yes), (z3.Not(flag), no)):
+            p = path.add(c)
+            if ex.feasible(p.conds):
+                out.append(('ret', v, p))
+        return out
+
     def c_iterate(ex, st, args, path, callee):
+        """Value::iterate on the *argument: its items when it is iterable (solver-chosen flag), otherwise an error"""
         v = d(ex, args[0])
         if not (isinstance(v, Struct) and v.ty == 'StarSeq'):
             raise Unsupported(f'iterate on {v}')
-        return ret(OK(mk([('val', x) for x in v.fields])), path)
+        return flagged(ex, path, shape['star_iterable'], OK(mk([('val', x) for x in v.fields])), ERR(Err('not iterable', 'Error')))
 
     def c_dict_from_value(ex, st, args, path, callee):
+        """DictRef::from_value on the **argument: Some when it is a dict (solver-chosen flag)"""
         v = d(ex, args[0])
         if not (isinstance(v, Struct) and v.ty == 'KwMap'):
             raise Unsupported(f'DictRef::from_value on {v}')
-        return ret(SOME(v), path)
+        return flagged(ex, path, shape['kw_is_dict'], SOME(v), NONE())
 
     def c_iter_hashed(ex, st, args, path, callee):
         v = d(ex, args[0])
@@ -325,8 +339,8 @@ def contracts(shape):
         ('SmallMap::with_capacity = empty map', r'^SmallMap::<.*>::with_capacity$', c_vec_new),
         ('SmallMap::insert_hashed = Some(old) iff the key is present', r'^SmallMap::<.*>::insert_hashed$', c_map_insert),
         ('SmallMap::insert_hashed_unique_unchecked = append', r'^SmallMap::<.*>::insert_hashed_unique_unchecked$', c_map_push),
-        ('Value::iterate on the *sequence = its items', r'^layout::value::Value::<.*>::iterate$', c_iterate),
-        ('DictRef::from_value on the **mapping = Some (a dict)', r'^DictRef::<.*>::from_value$', c_dict_from_value),
+        ('Value::iterate on the *argument = Ok(its items) iff it is iterable (flag)', r'^layout::value::Value::<.*>::iterate$', c_iterate),
+        ('DictRef::from_value on the **argument = Some iff it is a dict (flag)', r'^DictRef::<.*>::from_value$', c_dict_from_value),
         ('<DictRef as Deref>::deref = the dict', r'^<DictRef<.*> as Deref>::deref$', c_first_val),
         ('Dict::iter_hashed = its (key, value) pairs in order', r'Dict::<.*>::iter_hashed', c_iter_hashed),
         ('StringValue::new(key) = Some iff the key is a string (flag per mapping key)', r'^ValueTyped::<.*StarlarkStr>::new$', c_string_value_new),
@@ -427,7 +441,10 @@ def run_shape(sess, ob, sig, call):
     ks = [z3.Bool(f'key{j}_is_str') for j in range(W or 0)]
     for j in range(W or 0):
         conds.append(z3.Implies(z3.Not(ks[j]), kn[j] == n + 1 - (j % 2)))      # a non-string key equals no name
-    shape = {'n': n, 'regular': regular, 'npo': npo, 'isstr': {str(kn[j]): ks[j] for j in range(W or 0)}}
+    star_ok, kw_ok = z3.Bool('star_is_iterable'), z3.Bool('kw_is_dict')
+    conds += [star_ok] if S is None else [z3.Implies(z3.Not(star_ok), z3.BoolVal(S == 0))]      # a non-iterable has no items
+    conds += [kw_ok] if W is None else [z3.Implies(z3.Not(kw_ok), z3.BoolVal(W == 0))]
+    shape = {'n': n, 'regular': regular, 'npo': npo, 'isstr': {str(kn[j]): ks[j] for j in range(W or 0)}, 'star_iterable': star_ok, 'kw_is_dict': kw_ok}
     ex = sess.executor(True, extra=contracts(shape))
     ex.max_depth = 40
     mexec.ENUMS['ParameterKind'] = PK
@@ -446,7 +463,7 @@ def run_shape(sess, ob, sig, call):
     fn = ex.get_fn(sess.db.find_in_file('params/spec.rs', 'collect_inline_impl'))
     outs = ex.run(fn, [Ref(('h', 'spec')), Ref(('h', 'args')), Ref(('h', 'slots')), Opaque('heap')], Path(conds), mem=mem)
     ob.paths += len(outs)
-    allv = kinds + [npos, npo] + an + kn + ks
+    allv = kinds + [npos, npo] + an + kn + ks + [star_ok, kw_ok]
     inst = 0
     for v, p, m in outs:
         blocked = []
@@ -464,10 +481,11 @@ def run_shape(sess, ob, sig, call):
             s = {'kinds': [PK[x] for x in kv], 'npos': vals[n], 'nposonly': vals[n + 1]}
             anv = vals[n + 2:n + 2 + K]
             knv = vals[n + 2 + K:n + 2 + K + (W or 0)]
-            ksv = vals[n + 2 + K + (W or 0):]
+            ksv = vals[n + 2 + K + (W or 0):-2]
+            sok, kok = bool(vals[-2]), bool(vals[-1])
             c = {'pos': [100 + j for j in range(P)], 'named': [(anv[j], 200 + j) for j in range(K)],
                  'star': None if S is None else [300 + j for j in range(S)], 'kw': None if W is None else [(knv[j], 400 + j) for j in range(W)],
-                 'kw_is_str': [bool(x) for x in ksv]}
+                 'kw_is_str': [bool(x) for x in ksv], 'star_iterable': sok, 'kw_is_dict': kok}
             want = py_bind(s, c)
             if v.variant == 'Ok':
                 sl = ex.deref(m, m[('h', 'slots')])
@@ -485,7 +503,7 @@ def run_shape(sess, ob, sig, call):
             vals = [model_int(model, t) for t in allv]
             ob.fail({'kind': 'bind', 'sig': {'kinds': [PK[x] for x in vals[:n]], 'npos': vals[n], 'nposonly': vals[n + 1]}, 'panic': pn.msg, 'code': 'panic', 'reference': 'no panic',
                      'call': {'pos': [100 + j for j in range(P)], 'named': [(x, 200 + j) for j, x in enumerate(vals[n + 2:n + 2 + K])], 'star': None if S is None else [300 + j for j in range(S)],
-                              'kw': None if W is None else [(x, 400 + j) for j, x in enumerate(vals[n + 2 + K:n + 2 + K + (W or 0)])], 'kw_is_str': [bool(x) for x in vals[n + 2 + K + (W or 0):]]}})
+                              'kw': None if W is None else [(x, 400 + j) for j, x in enumerate(vals[n + 2 + K:n + 2 + K + (W or 0)])], 'kw_is_str': [bool(x) for x in vals[n + 2 + K + (W or 0):-2]], 'star_iterable': bool(vals[-2]), 'kw_is_dict': bool(vals[-1])}})
     sess.absorb(ex)
     return inst
 
@@ -666,5 +684,88 @@ def run_builder(sess, ob, po, pn, has_args, no, has_kwargs):
         r, model = sess.decide(ob, pn_.conds)
         if r == 'sat':
             ob.fail({'kind': 'builder', 'shape': [po, pn, has_args, no, has_kwargs], 'kinds': [PK[model_int(model, kx)] for kx in kinds], 'what': 'panic: ' + pn_.msg, 'panic': pn_.msg})
+    sess.absorb(ex)
+    return inst
+
+
+# ------------------------------------------------------------------------------------------- can_fill_with_args
+def run_can_fill(sess, ob, sig, P, K):
+    """`ParametersSpec::can_fill_with_args(pos, names)` answers true exactly when a call with `pos` positional arguments and the
+    (pairwise different) named arguments `names` binds under the Python rules"""
+    n, a, k = sig
+    regular = [i for i in range(n) if i != a and i != k]
+    kinds = [z3.Int(f'pk{i}') for i in range(n)]
+    npos, npo = z3.Int('num_positional'), z3.Int('num_positional_only')
+    conds = [npo >= 0, npo <= npos]
+    for i in range(n):
+        conds += [kinds[i] == 3] if i == a else [kinds[i] == 4] if i == k else [kinds[i] >= 0, kinds[i] <= 2]
+    first_special = min([x for x in (a, k) if x is not None], default=n)
+    conds += [npos == a] if a is not None else [npos >= 0, npos <= first_special]
+    an = [z3.Int(f'argname{j}') for j in range(K)]
+    for x in an:
+        conds += [x >= 0, x <= n + 1] + [x != s_ for s_ in (a, k) if s_ is not None]
+    conds += [z3.Distinct(*an)] if len(an) > 1 else []
+    shape = {'n': n, 'regular': regular, 'npo': npo, 'isstr': {}, 'star_iterable': z3.BoolVal(True), 'kw_is_dict': z3.BoolVal(True)}
+
+    def c_from_elem(ex, st, args, path, callee):
+        cnt = z3.simplify(args[1])
+        if not z3.is_int_value(cnt):
+            raise Unsupported('vec![x; n] with symbolic n')
+        return ret(Slice(cnt, [args[0]] * cnt.as_long(), 'vec'), path)
+
+    def c_index(ex, st, args, path, callee):
+        r = args[0]
+        i = z3.simplify(args[1])
+        v = ex.deref(st['mem'], r)
+        if not z3.is_int_value(i) or not isinstance(r, Ref):
+            raise Unsupported('Vec index with symbolic index')
+        if i.as_long() >= len(v.elems):
+            ex.add_panic(path, f'index {i} out of bounds (len {len(v.elems)})', callee)
+            return []
+        return ret(Ref(r.addr, r.path + (('elem', i.as_long()),)), path)
+    extra = [('vec![x; n] = n copies', r'^std::vec::from_elem::<', c_from_elem),
+             ('<Vec<T> as Index/IndexMut<usize>>::index = the element (bounds checked)', r'^<Vec<.*> as (std::ops::)?Index(Mut)?<usize>>::index(_mut)?$', c_index),
+             ('SymbolMap::get_str = lookup among the parameters that are not positional-only', r'^SymbolMap::<u32>::get_str$',
+              lambda ex, st, args, path, callee: [c for c in contracts(shape) if c[0].startswith('SymbolMap::get_hashed_string_value')][0][2](ex, st, args, path, callee))]
+    ex = sess.executor(True, extra=extra + contracts(shape))
+    ex.max_depth = 40
+    mexec.ENUMS['ParameterKind'] = PK
+    pk = [SymEnum('ParameterKind', kinds[i], {0: z3.IntVal(500 + i)}) for i in range(n)]
+    indices = Struct([npos, npo, SOME(z3.IntVal(a)) if a is not None else NONE(), SOME(z3.IntVal(k)) if k is not None else NONE()], 'DefParamIndices')
+    mem = {('h', 'spec'): Struct([Opaque('function_name'), Slice(z3.IntVal(n), pk, 'kinds'), Slice(z3.IntVal(n), [Opaque('name')] * n, 'param_names'), Opaque('names'), indices], 'ParametersSpec'),
+           ('h', 'names'): Slice(z3.IntVal(K), list(an), 'names')}
+    fn = ex.get_fn(sess.db.find_in_file('params/spec.rs', 'can_fill_with_args_impl'))
+    outs = ex.run(fn, [Ref(('h', 'spec')), z3.IntVal(P), Ref(('h', 'names'))], Path(conds), mem=mem)
+    ob.paths += len(outs)
+    allv = kinds + [npos, npo] + an
+    inst = 0
+    for v, p, m in outs:
+        blocked = []
+        while True:
+            r, model = sess.decide(ob, list(p.conds) + blocked)
+            if r == 'unknown':
+                ob.inconclusive('solver unknown')
+                break
+            if r != 'sat':
+                break
+            vals = [model_int(model, t) for t in allv]
+            blocked.append(z3.Or([t != x for t, x in zip(allv, vals)]))
+            inst += 1
+            s = {'kinds': [PK[x] for x in vals[:n]], 'npos': vals[n], 'nposonly': vals[n + 1]}
+            c = {'pos': [100 + j for j in range(P)], 'named': [(vals[n + 2 + j], 200 + j) for j in range(K)], 'star': None, 'kw': None}
+            want = py_bind(s, c) is not None
+            got = model.eval(v, model_completion=True) if z3.is_expr(v) else v
+            got = bool(z3.is_true(got)) if z3.is_expr(got) else got
+            if got != want:
+                ob.fail({'kind': 'can_fill', 'sig': s, 'call': c, 'code': got, 'reference': want})
+                if len(ob.witnesses) > 8:
+                    break
+    for pn in ex.panics:
+        sess.panic_edges_checked += 1
+        r, model = sess.decide(ob, pn.conds)
+        if r == 'sat':
+            vals = [model_int(model, t) for t in allv]
+            ob.fail({'kind': 'can_fill', 'sig': {'kinds': [PK[x] for x in vals[:n]], 'npos': vals[n], 'nposonly': vals[n + 1]}, 'panic': pn.msg, 'code': 'panic', 'reference': 'no panic',
+                     'call': {'pos': [100 + j for j in range(P)], 'named': [(vals[n + 2 + j], 200 + j) for j in range(K)], 'star': None, 'kw': None}})
     sess.absorb(ex)
     return inst
